@@ -37,11 +37,12 @@
 
    response handler
      EReplyArrives  the serve loop, under s.mu, finds the transaction under (addr, t), pops it and does
-                    `go t.handleResponse(d)`; nothing happens when the server is closed or the
-                    transaction is not (or no longer) registered                                     -> HPending
+                    `go t.handleResponse(d)`; nothing happens when the server is closed, the source is
+                    on the blocklist, or the transaction is not (or no longer) registered                                     -> HPending
      LHandler       replyChan <- m   (capacity 1, a transaction is popped at most once: never blocks)  -> HDone
 
-   environment: ECtxCancel (the caller's context is cancelled), EServerClose (Server.Close),
+   environment: ECtxCancel (the caller's context is cancelled), EServerClose (Server.Close), EBlockDest
+   (Server.SetIPBlockList puts the destination on the blocklist; every send re-checks closed and blocklist),
    EReplyArrives, and the choice among the send outcomes that configuration and state permit.
 
    Rate limiting (C20).  Whether a send asks the limiter, and how, is decided per send from the number of
@@ -90,7 +91,7 @@ Definition send_rated (r : rlcfg) (w : nat) : bool :=
 
 Record qcfg := mkQC {
   qc_tries : nat;        (* NumTries after defaulting *)
-  qc_blocked : bool;     (* destination is in the server's IP blocklist *)
+  qc_blocked : bool;     (* destination is in the server's IP blocklist when the query starts *)
   qc_rl : rlcfg;         (* QueryInput.RateLimiting *)
   qc_exact : bool }.     (* the limiter is an exact budget (rate.NewLimiter(0, b)): Allow() and Wait() both
                             fail at once when no unit is left; otherwise a rated send may be refused at any time *)
@@ -112,10 +113,11 @@ Record qstate := mkQS {
   q_popped : bool;               (* a reply popped the transaction *)
   q_result : option result;      (* set by the select *)
   q_budget : nat;                (* limiter units left (exact budget) *)
-  q_rated : nat }.               (* units consumed by this query's writes (a failed socket write gives its unit back) *)
+  q_rated : nat;                 (* units consumed by this query's writes (a failed socket write gives its unit back) *)
+  q_blocked : bool }.            (* the destination is in the server's IP blocklist NOW (Server.SetIPBlockList may add it at any time) *)
 
-Definition q_init (closed0 : bool) (budget0 : nat) : qstate :=
-  mkQS CStart SIdle HIdle false false None false false closed0 0 0 0 None false None budget0 0.
+Definition q_init (closed0 : bool) (budget0 : nat) (blocked0 : bool) : qstate :=
+  mkQS CStart SIdle HIdle false false None false false closed0 0 0 0 None false None budget0 0 blocked0.
 
 Inductive label :=
 | LRegister
@@ -125,11 +127,11 @@ Inductive label :=
 | LHandler
 | EDelayElapsed
 | ESendOk | ESendErr (c : cause)
-| EReplyArrives | ECtxCancel | EServerClose.
+| EReplyArrives | ECtxCancel | EServerClose | EBlockDest.
 
 (* events the environment may or may not provide; everything else is bound to happen *)
 Definition external (l : label) : bool :=
-  match l with EReplyArrives | ECtxCancel | EServerClose => true | _ => false end.
+  match l with EReplyArrives | ECtxCancel | EServerClose | EBlockDest => true | _ => false end.
 Definition internal (l : label) : bool := negb (external l).
 
 Definition is_select (s : qstate) : bool := match q_caller s with CSelect => true | _ => false end.
@@ -146,7 +148,7 @@ Definition no_budget (c : qcfg) (s : qstate) : bool :=
 (* which error writeToNode may return now (tests in the code's order: closed, blocked, limiter, socket) *)
 Definition cause_ok (c : qcfg) (s : qstate) (x : cause) : bool :=
   if q_closed s then cause_eqb x CClosed
-  else if qc_blocked c then cause_eqb x CBlocked
+  else if q_blocked s then cause_eqb x CBlocked
   else match x with
        | CRate => rated_now c s && (negb (qc_exact c) || Nat.eqb (q_budget s) 0)   (* only a rated send asks the limiter *)
        | CSocket | CShort => negb (no_budget c s)                                  (* the limiter let it through *)
@@ -166,27 +168,28 @@ Definition enabled (c : qcfg) (s : qstate) (l : label) : bool :=
   | LTimeout => sender_fired s && Nat.eqb (q_sends s) (qc_tries c)
   | LHandler => match q_handler s with HPending => true | _ => false end
   | EDelayElapsed => match q_sender s with SWait false => true | _ => false end
-  | ESendOk => sender_fired s && Nat.ltb (q_sends s) (qc_tries c) && negb (q_closed s) && negb (qc_blocked c)
+  | ESendOk => sender_fired s && Nat.ltb (q_sends s) (qc_tries c) && negb (q_closed s) && negb (q_blocked s)
                && negb (no_budget c s)
   | ESendErr x => sender_fired s && Nat.ltb (q_sends s) (qc_tries c) && cause_ok c s x
-  | EReplyArrives => q_registered s && negb (q_closed s)
+  | EReplyArrives => q_registered s && negb (q_closed s) && negb (q_blocked s)   (* packets from a blocked source are dropped *)
   | ECtxCancel => negb (q_ctx s)
   | EServerClose => negb (q_closed s)
+  | EBlockDest => negb (q_blocked s)
   end.
 
 Definition set_caller (s : qstate) (v : cpc) : qstate :=
   mkQS v (q_sender s) (q_handler s) (q_registered s) (q_reply_chan s) (q_senderr_chan s) (q_ctx s)
-       (q_send_cancel s) (q_closed s) (q_sends s) (q_writes s) (q_delays s) (q_fail s) (q_popped s) (q_result s) (q_budget s) (q_rated s).
+       (q_send_cancel s) (q_closed s) (q_sends s) (q_writes s) (q_delays s) (q_fail s) (q_popped s) (q_result s) (q_budget s) (q_rated s) (q_blocked s).
 
 (* the caller's select took a branch *)
 Definition selected (s : qstate) (r : result) (rc : bool) (se : option serr) : qstate :=
   mkQS CCancel (q_sender s) (q_handler s) (q_registered s) rc se (q_ctx s)
-       (q_send_cancel s) (q_closed s) (q_sends s) (q_writes s) (q_delays s) (q_fail s) (q_popped s) (Some r) (q_budget s) (q_rated s).
+       (q_send_cancel s) (q_closed s) (q_sends s) (q_writes s) (q_delays s) (q_fail s) (q_popped s) (Some r) (q_budget s) (q_rated s) (q_blocked s).
 
 (* the sender returns err: sendErr <- err; close(sendErr) *)
 Definition sender_done (s : qstate) (e : serr) (sends writes : nat) (f : option cause) (budget rated : nat) : qstate :=
   mkQS (q_caller s) SDone (q_handler s) (q_registered s) (q_reply_chan s) (Some e) (q_ctx s)
-       (q_send_cancel s) (q_closed s) sends writes (q_delays s) f (q_popped s) (q_result s) budget rated.
+       (q_send_cancel s) (q_closed s) sends writes (q_delays s) f (q_popped s) (q_result s) budget rated (q_blocked s).
 
 (* a datagram that leaves takes one unit when the send is rated (a failed socket write gives it back:
    `SendLimiter.AllowN(time.Now(), -1)`, so CSocket changes nothing; CShort keeps the unit) *)
@@ -199,7 +202,7 @@ Definition step (c : qcfg) (s : qstate) (l : label) : qstate :=
   match l with
   | LRegister =>
       mkQS CSelect (SWait true) (q_handler s) true (q_reply_chan s) (q_senderr_chan s) (q_ctx s)
-           (q_send_cancel s) (q_closed s) (q_sends s) (q_writes s) (q_delays s) (q_fail s) (q_popped s) (q_result s) (q_budget s) (q_rated s)
+           (q_send_cancel s) (q_closed s) (q_sends s) (q_writes s) (q_delays s) (q_fail s) (q_popped s) (q_result s) (q_budget s) (q_rated s) (q_blocked s)
   | LSelReply => selected s RReply false (q_senderr_chan s)
   | LSelCtx => selected s RCtx (q_reply_chan s) (q_senderr_chan s)
   | LSelSendErr =>
@@ -209,42 +212,45 @@ Definition step (c : qcfg) (s : qstate) (l : label) : qstate :=
       end
   | LCancelSend =>
       mkQS CJoin (q_sender s) (q_handler s) (q_registered s) (q_reply_chan s) (q_senderr_chan s) (q_ctx s)
-           true (q_closed s) (q_sends s) (q_writes s) (q_delays s) (q_fail s) (q_popped s) (q_result s) (q_budget s) (q_rated s)
+           true (q_closed s) (q_sends s) (q_writes s) (q_delays s) (q_fail s) (q_popped s) (q_result s) (q_budget s) (q_rated s) (q_blocked s)
   | LJoin =>
       mkQS CDereg (q_sender s) (q_handler s) (q_registered s) (q_reply_chan s) None (q_ctx s)
-           (q_send_cancel s) (q_closed s) (q_sends s) (q_writes s) (q_delays s) (q_fail s) (q_popped s) (q_result s) (q_budget s) (q_rated s)
+           (q_send_cancel s) (q_closed s) (q_sends s) (q_writes s) (q_delays s) (q_fail s) (q_popped s) (q_result s) (q_budget s) (q_rated s) (q_blocked s)
   | LDeregister =>
       mkQS CReturned (q_sender s) (q_handler s) false (q_reply_chan s) (q_senderr_chan s) (q_ctx s)
-           (q_send_cancel s) (q_closed s) (q_sends s) (q_writes s) (q_delays s) (q_fail s) (q_popped s) (q_result s) (q_budget s) (q_rated s)
+           (q_send_cancel s) (q_closed s) (q_sends s) (q_writes s) (q_delays s) (q_fail s) (q_popped s) (q_result s) (q_budget s) (q_rated s) (q_blocked s)
   | LSenderCtx => sender_done s SECtx (q_sends s) (q_writes s) (q_fail s) (q_budget s) (q_rated s)
   | LTimeout => sender_done s SETimeout (q_sends s) (q_writes s) (q_fail s) (q_budget s) (q_rated s)
   | LHandler =>
       mkQS (q_caller s) (q_sender s) HDone (q_registered s) true (q_senderr_chan s) (q_ctx s)
-           (q_send_cancel s) (q_closed s) (q_sends s) (q_writes s) (q_delays s) (q_fail s) (q_popped s) (q_result s) (q_budget s) (q_rated s)
+           (q_send_cancel s) (q_closed s) (q_sends s) (q_writes s) (q_delays s) (q_fail s) (q_popped s) (q_result s) (q_budget s) (q_rated s) (q_blocked s)
   | EDelayElapsed =>
       mkQS (q_caller s) (SWait true) (q_handler s) (q_registered s) (q_reply_chan s) (q_senderr_chan s) (q_ctx s)
-           (q_send_cancel s) (q_closed s) (q_sends s) (q_writes s) (S (q_delays s)) (q_fail s) (q_popped s) (q_result s) (q_budget s) (q_rated s)
+           (q_send_cancel s) (q_closed s) (q_sends s) (q_writes s) (S (q_delays s)) (q_fail s) (q_popped s) (q_result s) (q_budget s) (q_rated s) (q_blocked s)
   | ESendOk =>
       mkQS (q_caller s) (SWait false) (q_handler s) (q_registered s) (q_reply_chan s) (q_senderr_chan s) (q_ctx s)
            (q_send_cancel s) (q_closed s) (S (q_sends s)) (S (q_writes s)) (q_delays s) (q_fail s) (q_popped s) (q_result s)
-           (budget_after c s) (rated_after c s)
+           (budget_after c s) (rated_after c s) (q_blocked s)
   | ESendErr x =>
       sender_done s (SESend x) (S (q_sends s)) (if wrote x then S (q_writes s) else q_writes s) (Some x)
                   (if wrote x then budget_after c s else q_budget s) (if wrote x then rated_after c s else q_rated s)
   | EReplyArrives =>
       mkQS (q_caller s) (q_sender s) HPending false (q_reply_chan s) (q_senderr_chan s) (q_ctx s)
-           (q_send_cancel s) (q_closed s) (q_sends s) (q_writes s) (q_delays s) (q_fail s) true (q_result s) (q_budget s) (q_rated s)
+           (q_send_cancel s) (q_closed s) (q_sends s) (q_writes s) (q_delays s) (q_fail s) true (q_result s) (q_budget s) (q_rated s) (q_blocked s)
   | ECtxCancel =>
       mkQS (q_caller s) (q_sender s) (q_handler s) (q_registered s) (q_reply_chan s) (q_senderr_chan s) true
-           (q_send_cancel s) (q_closed s) (q_sends s) (q_writes s) (q_delays s) (q_fail s) (q_popped s) (q_result s) (q_budget s) (q_rated s)
+           (q_send_cancel s) (q_closed s) (q_sends s) (q_writes s) (q_delays s) (q_fail s) (q_popped s) (q_result s) (q_budget s) (q_rated s) (q_blocked s)
   | EServerClose =>
       mkQS (q_caller s) (q_sender s) (q_handler s) (q_registered s) (q_reply_chan s) (q_senderr_chan s) (q_ctx s)
-           (q_send_cancel s) true (q_sends s) (q_writes s) (q_delays s) (q_fail s) (q_popped s) (q_result s) (q_budget s) (q_rated s)
+           (q_send_cancel s) true (q_sends s) (q_writes s) (q_delays s) (q_fail s) (q_popped s) (q_result s) (q_budget s) (q_rated s) (q_blocked s)
+  | EBlockDest =>
+      mkQS (q_caller s) (q_sender s) (q_handler s) (q_registered s) (q_reply_chan s) (q_senderr_chan s) (q_ctx s)
+           (q_send_cancel s) (q_closed s) (q_sends s) (q_writes s) (q_delays s) (q_fail s) (q_popped s) (q_result s) (q_budget s) (q_rated s) true
   end.
 
 Definition step_en (c : qcfg) (s : qstate) (l : label) : qstate := if enabled c s l then step c s l else s.
 Definition exec (c : qcfg) (s : qstate) (ls : list label) : qstate := fold_left (step_en c) ls s.
-Definition run (c : qcfg) (closed0 : bool) (budget0 : nat) (ls : list label) : qstate := exec c (q_init closed0 budget0) ls.
+Definition run (c : qcfg) (closed0 : bool) (budget0 : nat) (ls : list label) : qstate := exec c (q_init closed0 budget0 (qc_blocked c)) ls.
 
 (* observables *)
 Definition returned (s : qstate) : bool := match q_caller s with CReturned => true | _ => false end.
@@ -256,7 +262,7 @@ Definition all_done (s : qstate) : bool :=
 Definition all_labels : list label :=
   [LRegister; LSelReply; LSelCtx; LSelSendErr; LCancelSend; LJoin; LDeregister; LSenderCtx; LTimeout;
    LHandler; EDelayElapsed; ESendOk; ESendErr CClosed; ESendErr CBlocked; ESendErr CRate; ESendErr CSocket;
-   ESendErr CShort; EReplyArrives; ECtxCancel; EServerClose].
+   ESendErr CShort; EReplyArrives; ECtxCancel; EServerClose; EBlockDest].
 
 (* termination measure: strictly decreases on every enabled label (QueryProofs.mu_decreases) *)
 Definition mu (c : qcfg) (s : qstate) : nat :=
@@ -268,4 +274,4 @@ Definition mu (c : qcfg) (s : qstate) : nat :=
      | SWait false => 3 * (qc_tries c - q_sends s) + 2
      | SDone => 0 end)
   + (match q_handler s with HIdle => 2 | HPending => 1 | HDone => 0 end)
-  + (if q_ctx s then 0 else 1) + (if q_closed s then 0 else 1).
+  + (if q_ctx s then 0 else 1) + (if q_closed s then 0 else 1) + (if q_blocked s then 0 else 1).
